@@ -22,6 +22,7 @@ Definition table2 : list (string * (list Z -> list Z)) :=
   ("ctor_vect", fun l => ctor_vect l :: nil) :: ("cast_vect", fun l => cast_vect (A 0 l)) ::
   ("isZero_I", b1 isZero_I) :: ("isZero_i64", b1 isZero_i64) :: ("isZero_u64", b1 isZero_u64) :: ("priv_sign", f1 priv_sign) ::
   
+  ("logp", f2 logp) :: ("pp", f2 pp) :: ("vect_roundtrip", fun l => ctor_vect (cast_vect (A 0 l)) :: nil) ::
   ("nonZero", fun l => b2z (negb (Z.eqb (nonZero (A 0 l)) 0)) :: nil) ::
   ("compare_I", f2 compare_I) :: ("absCompare_I", f2 absCompare_I) :: ("absCompare_d", f3 absCompare_d) ::
   ("absCompare_f", f3 absCompare_f) :: ("absCompare_u64", f2 absCompare_u64) :: ("absCompare_u32", f2 absCompare_u32) ::
